@@ -10,7 +10,7 @@ case "$ID" in
   C09)     TARGET=fz_state; RUNS=400000; MAXLEN=600 ;;
   C19)     TARGET=fz_text; RUNS=6000000; MAXLEN=24 ;;
   C20)     TARGET=fz_san;  RUNS=2500000; MAXLEN=20 ;;
-  C01|C02|C03|C10|C12|C14) TARGET=fz_pos; RUNS=150000; MAXLEN=1200 ;;
+  C01|C02|C03|C10|C12|C14) TARGET=fz_pos; RUNS=25000; MAXLEN=1200 ;;
   *) exit 0 ;;
 esac
 export VERIF_ROOT="$ROOT" CARGO_NET_OFFLINE=true
@@ -26,7 +26,7 @@ fi
 BIN="$ROOT/fuzz/target/x86_64-unknown-linux-gnu/release/$TARGET"
 START=$(date +%s)
 ( cd "$LOGDIR" && "$BIN" "$CORPUS" -runs=$RUNS -max_len=$MAXLEN -len_control=0 -seed=$SEED -jobs=$JOBS -workers=$JOBS \
-    -max_total_time=1500 -print_final_stats=1 -artifact_prefix="$ART/" >"$LOGDIR/driver.log" 2>&1 )
+    -max_total_time=1500 -timeout=60 -print_final_stats=1 -artifact_prefix="$ART/" >"$LOGDIR/driver.log" 2>&1 )
 RC=$?
 END=$(date +%s)
 EXECS=$(grep -h "stat::number_of_executed_units" "$LOGDIR"/fuzz-*.log 2>/dev/null | awk '{s+=$2} END{print s+0}')
